@@ -1,4 +1,4 @@
-HOOK_COMMITS = ["725ea72"]
+HOOK_COMMITS = ["725ea72", "a9505d1"]
 COMMON_NOTE = ("Trusted: Coq 8.16.1 kernel, extraction (ExtrOcamlBasic, ExtrOcamlZBigInt), zarith, the OCaml driver, the Rust harness and the "
                "python orchestration; groups/pairing modelled as discrete logs over an abstract field; ark-* primitives, hashes and sponges are oracles. "
                "Theorems are about the model; the model is tied to /repo by the correspondence run of this check.")
@@ -161,6 +161,22 @@ CHECKS += [
              "checks belong to ark-serialize/ark-ec and are not modelled. Fields of equal type swapped consistently in serializer and deserializer "
              "are invisible to parsing; they are covered by the implementation-level half (decisions with deserialized key/commitments/proof on an "
              "honest and a tampered claim, both validation modes)."},
+]
+CHECKS += [
+    {"property_id": "C15",
+     "text": "Coq model of marlin_pst13_pc: the Combinations iterator (positions, bump search), setup's multiset enumeration per degree and the "
+             "value attached to each multiset, trim's degree filter, divide_at_point, and commit/open/check in the discrete-log view. Theorems: on "
+             "the whole (num_vars, max_degree) grid [1,6]^2 the enumeration terminates without panic and yields exactly the exponent vectors of "
+             "total degree <= D, none duplicated, C(n+D, D) many (finite domain, vm_compute lifted by forallb_forall; the specification list is "
+             "characterised for all n, D); for every n, D each published element is g scaled by its own monomial at the trapdoor, hence "
+             "e(G[m x_i], H) = e(G[m], beta_i H); trim keeps exactly degree <= supported; the division is exact for every sparse polynomial with "
+             "arbitrary mixed monomials, p(X) - p(z) = sum (X_i - z_i) w_i(X), so open/check accept the true value and no other. Correspondence: "
+             "the crate's Combinations and divide_at_point (verif hooks) and setup/trim with a replayed RNG against the extracted model "
+             "(term sets, every group element relative to the library's own generators, quotient polynomials term by term), plus honest and "
+             "mutated PST13 transcripts on the grid with dense, top-degree and mixed polynomials, with and without hiding.",
+     "note": COMMON_NOTE + " The monomial-set theorem is exhaustive on the grid the property names, not beyond it (the iterator is modelled "
+             "step by step; its general correctness for arbitrary multisets is only tested). The hiding part of PST13 commit/open is exercised "
+             "by the correspondence and the implementation-level oracles, not by a theorem."},
 ]
 _PENDING = "check not built yet in this round (model and correspondence under construction; see DESIGN.md section 7)"
 _CLAIMED = {c["property_id"] for c in CHECKS}
